@@ -209,6 +209,12 @@ class Prover:
                 r = ty_range(et) if et else None
                 if r and lo is None:
                     lo, hi = r
+        for (rx, hlo, hhi) in self.eng.range_hints:
+            if rx.search(name):
+                if hlo is not None:
+                    lo = hlo if lo is None else max(lo, hlo)
+                if hhi is not None:
+                    hi = hhi if hi is None else min(hi, hhi)
         return (lo, hi)
 
     def _range(self, v, depth=0):
@@ -476,6 +482,8 @@ class RangeEngine(Engine):
         self._tbb = {}
         self.slice_elem = {}
         self.arr_len = {}
+        self.range_hints = []     # [(compiled regex over atom names, lo, hi)] — stated type invariants
+        self.invariants = []      # [callable(prover) -> [Lin ≥ 0]] — stated relational invariants
 
     # ---- invariants ------------------------------------------------------------------------------------
     def min_len(self, x):
@@ -503,6 +511,8 @@ class RangeEngine(Engine):
         for e in s.events:
             if e[0] == 'fact':
                 fs.append(e[1])
+        for inv in self.invariants:
+            fs += inv(self.P)
         return fs
 
     def bb_of(self, fn, t):
